@@ -236,7 +236,7 @@ func checkRHP2(c R2Case) error {
 	}
 
 	// connections
-	ca, cb := net.Pipe()
+	ca, cb, dl := newMemPipe()
 	var fc *faultConn
 	faultMsg, faultSide := -1, -1
 	var connA, connB net.Conn = ca, cb
@@ -266,6 +266,7 @@ func checkRHP2(c R2Case) error {
 	var renter, host *rhp2.Transport
 	ea, eb := runPair(
 		func() (err error) {
+			defer dl.finished(0)
 			renter, err = rhp2.NewRenterTransport(connA, expectKey)
 			if err != nil {
 				connA.Close()
@@ -273,12 +274,16 @@ func checkRHP2(c R2Case) error {
 			return
 		},
 		func() (err error) {
+			defer dl.finished(1)
 			host, err = rhp2.NewHostTransport(connB, hostKey)
 			if err != nil {
 				connB.Close()
 			}
 			return
 		})
+	if dl.isDeadlocked() {
+		return fail("handshake deadlocked: one side waits for bytes the other never sends (renter=%v host=%v)", ea, eb)
+	}
 	if isPanic(ea) || isPanic(eb) {
 		return fail("handshake panicked: %v / %v", ea, eb)
 	}
@@ -287,8 +292,11 @@ func checkRHP2(c R2Case) error {
 			return fail("renter accepted a handshake signed by a key other than the expected host key")
 		}
 		if eb == nil {
-			// the renter has hung up; the host side must not report an established session
-			return fail("host reports an established session although the renter rejected the handshake")
+			// with buffered writes the host cannot notice during its own handshake that the renter
+			// hung up; it must notice on its first read
+			if id, err := host.ReadID(); err == nil {
+				return fail("host read a request (%v) on a session whose handshake the renter rejected", id)
+			}
 		}
 		rec.Case(stats.FP("rhp2-handshake", "badsig", c.Seed), true, "rhp2:handshake:badsig")
 		return nil
@@ -303,8 +311,10 @@ func checkRHP2(c R2Case) error {
 	// scripts
 	outs := [2][]outcome{make([]outcome, len(plans)), make([]outcome, len(plans))}
 	verifyRead := func(want, got any) (bool, string) { return normEqual(want, got) }
+	dl.phase()
 	script := func(side int, t *rhp2.Transport, conn net.Conn) func() error {
 		return func() error {
+			defer dl.finished(side)
 			for i, p := range plans {
 				o := &outs[side][i]
 				o.done = true
@@ -410,6 +420,9 @@ func checkRHP2(c R2Case) error {
 	}
 
 	// ---- oracle
+	if dl.isDeadlocked() {
+		return fail("session deadlocked: a side waits to read bytes that its peer never sends; outcomes renter=%v host=%v", outs[0], outs[1])
+	}
 	if err := wrongObject("renter", outs[0]); err != nil {
 		return fail("%v", err)
 	}
@@ -501,6 +514,7 @@ func checkRHP2(c R2Case) error {
 			// graceful termination: the host normally sees the renter's exit signal. Not asserted:
 			// Transport.Close gives the signal a one-second write deadline, so on a loaded
 			// machine the host may legitimately see EOF instead.
+			dl.phase()
 			ea, eb := runPair(
 				func() error { return renter.Close() },
 				func() error {
